@@ -628,6 +628,31 @@ def main():
         "timing clauses are decided with a tolerance of %d ms and an observation margin of %d ms" % (tol, margin),
     ]
 
+    # ---- condition scripts that fail for some of the bindings that reach them (a ReferenceError: the script names a variable that only
+    # one disjunct of an earlier `or` binds), plain or wrapped in `or` / `not`, as conditions of dispatched rules: the rule's condition
+    # node reports the error and none of its actions run -- for whichever binding the failure happens (Location model, op by op)
+    import loccheck, lochist
+    lrc = loccheck.LocRun(ck, [])
+    lrc.drv, lrc.mdl = drv, mdl
+    def partial_fail_case(r):
+        keys = ["a", "b", "c"]
+        ops = [{"op": "addFact", "loc": "a", "id": "pf%d" % i, "fact": {r.choice(keys): r.choice([1, 2, "x"]), r.choice(keys): r.choice([1, "y"])}} for i in range(r.randint(2, 5))]
+        k1, k2 = r.choice(keys), r.choice(keys)
+        t = {"t": "eqvar", "x": "x", "v": r.choice([1, 2, "x"])} if r.random() < 0.6 else ({"t": "bindvar", "k": "n", "x": "x"} if r.random() < 0.7 else {"t": "throw"})
+        code = {"code": lochist.js_of_tmpl(t), "verif_tmpl": t}
+        w = r.random()
+        term = code if w < 0.3 else ({"or": [code]} if w < 0.7 else ({"or": [{"pattern": {"nosuchkey": 1}}, code]} if w < 0.85 else {"not": code}))
+        d1, d2 = {"pattern": {k1: "?y"}}, {"pattern": {k2: "?x"}}
+        cond = {"and": [{"or": [d1, d2] if r.random() < 0.7 else [d2, d1]}, term]}
+        ta = {"t": "lit", "v": 1}
+        ops += [{"op": "addRule", "loc": "a", "id": "rpf", "rule": {"when": {"pattern": {"go": "?g"}}, "condition": cond, "action": {"code": lochist.js_of_tmpl(ta), "verif_tmpl": ta}}},
+                {"op": "event", "loc": "a", "event": {"go": 1}}]
+        return {"kind": "loc", "state": r.choice(["indexed", "linear"]), "locs": ["a"], "ops": ops}
+    pf = [partial_fail_case(rng) for _ in range(80 if not ck.thorough else 1500)]
+    v0 = ck.violations
+    lrc.run(pf, check_spec=False, nontrivial=lambda c: True)
+    ck.cov["distribution"]["partial_failure_conditions"] = {"histories": len(pf), "violations": ck.violations - v0}
+
     if proof_broken and ck.violations == 0:
         ck.violation("proof obligations of C14 no longer check: %s" % pr["failed"],
                      {"theorems": pr.get("failed_theorems") or pr["failed"], "log": pr["log"][-3000:]}, tag="proof", no_input=True)
